@@ -397,6 +397,7 @@ func vfC05(c *hx.Ctx) {
 		c.AddUnit(u)
 	}
 	vfC05core(c)
+	vfC05frag(c)
 	vfC05fec(c)
 	vfAdversarialBFS(c, "C05:", hx.Pick(c, 3, 4), false)
 }
@@ -504,6 +505,7 @@ func vfC05core(c *hx.Ctx) {
 												if len(k.acklist) > 0 {
 													viol("C05:core-acklist-not-flushed", "acknowledgements left after a full flush")
 												}
+												vfReadLikeSession(k)
 											}()
 										}
 									}
@@ -520,6 +522,121 @@ func vfC05core(c *hx.Ctx) {
 		}
 	}
 	u.Samples = append(u.Samples, map[string]any{"segment": "cmd=81 sn=rcv_nxt+3 una=snd_una-1 declared_len=0xffffffff payload=1600 bytes", "then": "a valid PUSH behind it"})
+	u.EndStatesN = u.Executions
+	if len(u.Violations) > 0 {
+		u.Exhaustive = false
+	}
+	u.WallS = time.Since(start).Seconds()
+	c.AddUnit(u)
+}
+
+// vfReadLikeSession consumes what is readable the way UDPSession.Read does: a buffer of exactly PeekSize() bytes.
+// A panic propagates to the caller's recover.
+func vfReadLikeSession(k *KCP) {
+	for i := 0; i < 16; i++ {
+		size := k.PeekSize()
+		if size <= 0 {
+			return
+		}
+		if n := k.Recv(make([]byte, size)); n < 0 {
+			return
+		}
+	}
+}
+
+// vfC05frag: fragment counts are attacker-controlled too. Every sequence of 1-4 PUSH segments with frg from a boundary
+// alphabet and sequence numbers covering rcv_nxt.. in several arrival orders, in message and stream mode, for two window
+// sizes, read the way a session reads (buffer sized by PeekSize) between the inputs or only at the end, then with a
+// one-byte-short and an oversize buffer.
+func vfC05frag(c *hx.Ctx) {
+	if c.Skip("core-fragments") || (c.Of > 1 && c.Shard != 2%c.Of) {
+		return
+	}
+	start := time.Now()
+	u := &hx.Unit{Name: "core-fragments", Kind: "enum", Exhaustive: true, Params: map[string]any{"frg_alphabet": []int{0, 1, 2, 3, 255}, "segments": "1..4", "orders": "in order, reversed, first two swapped, duplicated first",
+		"modes": "message/stream", "windows": []int{4, 32}, "reads": "PeekSize-sized buffer between inputs / at the end; short and oversize buffers"}}
+	viol := func(sig, msg string) {
+		for _, v := range u.Violations {
+			if v.Signature == sig {
+				v.Count++
+				return
+			}
+		}
+		if len(u.Violations) < 6 {
+			u.Violations = append(u.Violations, c.NewViolation("core-fragments", u.Params, sig, msg, ""))
+		}
+	}
+	frgs := []uint8{0, 1, 2, 3, 255}
+	var seq []uint8
+	var rec func()
+	run := func() {
+		n := len(seq)
+		orders := [][]int{nil, nil, nil, nil}
+		for i := 0; i < n; i++ {
+			orders[0] = append(orders[0], i)
+			orders[1] = append(orders[1], n-1-i)
+		}
+		orders[2] = append([]int{}, orders[0]...)
+		if n >= 2 {
+			orders[2][0], orders[2][1] = 1, 0
+		}
+		orders[3] = append([]int{0}, orders[0]...)
+		for oi, ord := range orders {
+			for _, stream := range []int{0, 1} {
+				for _, wnd := range []int{4, 32} {
+					for _, between := range []bool{false, true} {
+						u.Executions++
+						u.NonTrivial++
+						func() {
+							defer func() {
+								if r := recover(); r != nil {
+									viol("C05:panic-after-forged-fragment-counts:"+vfPanicSiteOf(), fmt.Sprintf("frg sequence %v (arrival order %d, stream=%d, window %d, reads between inputs=%v): %v", seq, oi, stream, wnd, between, r))
+								}
+							}()
+							k := NewKCP(vfConv, func([]byte, int) {})
+							k.WndSize(wnd, wnd)
+							k.NoDelay(1, 10, 2, 1)
+							k.stream = int32(stream)
+							for _, i := range ord {
+								data := make([]byte, 100)
+								k.Input(wire.EncodeSegment(wire.Seg{Conv: vfConv, Cmd: wire.CmdPush, Frg: seq[i], Wnd: 32, Sn: uint32(i), Data: data}, -1), IKCP_PACKET_REGULAR, false)
+								if between {
+									vfReadLikeSession(k)
+								}
+								if k.rcv_queue.Len() > int(k.rcv_wnd) || k.rcv_buf.Len() > int(k.rcv_wnd) {
+									viol("C05:core-occupancy", fmt.Sprintf("delivery queue %d, reorder buffer %d, window %d", k.rcv_queue.Len(), k.rcv_buf.Len(), k.rcv_wnd))
+								}
+							}
+							k.flush(IKCP_FLUSH_FULL)
+							if size := k.PeekSize(); size > 1 {
+								if r := k.Recv(make([]byte, size-1)); r >= size {
+									viol("C05:recv-overruns-buffer", fmt.Sprintf("Recv returned %d for a %d-byte buffer", r, size-1))
+								}
+							}
+							k.Recv(make([]byte, 1))
+							vfReadLikeSession(k)
+							k.Recv(make([]byte, 65536))
+						}()
+					}
+				}
+			}
+		}
+	}
+	rec = func() {
+		if len(seq) > 0 {
+			run()
+		}
+		if len(seq) == 4 {
+			return
+		}
+		for _, f := range frgs {
+			seq = append(seq, f)
+			rec()
+			seq = seq[:len(seq)-1]
+		}
+	}
+	rec()
+	u.Samples = append(u.Samples, map[string]any{"frg_sequence": []int{1, 1, 0}, "read": "buffer of PeekSize() bytes"})
 	u.EndStatesN = u.Executions
 	if len(u.Violations) > 0 {
 		u.Exhaustive = false
